@@ -43,7 +43,7 @@ ASSUMPTIONS = [
     "the observation point is SSHTransportBase.dispatchMessage (public, documented); KEXINIT is recorded, not processed",
 ]
 MIN = {"quick": {"evaluations": 285000, "nontrivial": 265000, "outcomes": 3},
-       "thorough": {"evaluations": 400000, "nontrivial": 300000, "outcomes": 3}}
+       "thorough": {"evaluations": 2000000, "nontrivial": 2000000, "outcomes": 3}}
 
 MSG_IGNORE, MSG_KEXINIT, MSG_NEWKEYS, MSG_DATA = 2, 20, 21, 94
 
